@@ -6,9 +6,12 @@ parser diverges on some grammars (C06).  The worker returns only plain JSON-able
 
     real_case(task) -> {
       "status": "ok" | "exc:<Class>" | "timeout" | "truncated" | "spec_error:<Class>" | "not_modelled:<why>",
-      "grammar": IR json, "cap": MAX_REPETITIONS at compile time, "regexes": [...patterns repr...],
-      "rules":   canonical compiled rule table {nt: [[sym...]...]},      (helper names by structure)
-      "cols":    per column the admitted states [[lhs,[sym..],dot,origin,nkids]...]   (incomplete states dropped)
+      "grammar": IR json, "cap": MAX_REPETITIONS at compile time (only the OLD compilation used it),
+      "regexes": [...patterns repr...],
+      "rules":   canonical compiled rule table {nt: [[sym...]...]},      (helper names by structure; compared with the
+                 model's `compile` by `compile_corr`)
+      "cols":    per column the admitted states [[lhs,[sym..],dot,origin,nkids]...] in admission order (incomplete
+                 states dropped); also for a run stopped by the step meter (status "steplimit": the chart so far)
       "pred":    [[column, nt, [[sym..]..]]]   order in which `predict` added the alternatives,
       "rlen":    [[regexId, cell, greedyLen]]  CPython `re.match` at every cell (independent of fandango),
       "forest":  collapsed real trees as tree JSON (at most max_trees),
@@ -17,6 +20,9 @@ parser diverges on some grammars (C06).  The worker returns only plain JSON-able
 
 Symbols: ["lit", leaf] | ["re", id] | ["nt", name, sender, recipient]; helper nonterminals `<*c*>` are renamed
 to `<*<node id>:<j>*>` exactly like `FV.Earley.ntName` does for `NT.impl n j`.
+
+The model side is asked with the *variant* of the parser that harness/translate_earley.py reads from the source
+(`model_request(real, task, variant, fuel)`): admission policy, `{n,}` compilation, completing `predict`, scanner guards.
 """
 from __future__ import annotations
 
